@@ -383,7 +383,49 @@ def oracle_c05(an):
                       u['seqs'][0], ep=ep, wire_type=us_['type'], queued_type=es_['type'],
                       fragmented=len(u['frames']) > 1)
                     break
+    _receiver_side(an, lambda cls, msg, seq=None, **f: out.append(Violation('C05', 'C05.' + cls, msg, seq, **f)), '')
     return out
+
+
+def _receiver_side(an, V, prop_cls):
+    """Receiver-side consequence: per stream, the frames the peer reassembles are the frames the
+    sender queued, in order, none merged, truncated, dropped or reordered - also when frames of
+    other streams arrive between the fragments."""
+    units, interleave, open_units = wire_units(an)
+    # a stream ended by CANCEL or ERROR is dropped by its receiver at once; what is still in flight
+    # for it is legitimately discarded (or reassembled from the middle): not judged
+    aborted = {ev['f']['sid'] for ev in an.by_kind['enq'] if ev['f']['type'] in ('CANCEL', 'ERROR')}
+    for ep in ('client', 'server'):
+        peer = other(ep)
+        src = defaultdict(list)
+        for ev in an.by_kind['enq']:
+            if ev['ep'] == ep and ev['f']['type'] in FRAGMENTABLE and ev['f']['sid'] not in aborted:
+                src[ev['f']['sid']].append(ev)
+        got = defaultdict(list)
+        for ev in an.by_kind['reasm']:
+            if ev['ep'] == peer:
+                got[ev['f']['sid']].append(ev)
+        written = defaultdict(int)  # complete fragmentable units on the wire per stream
+        for u in units[ep]:
+            if u['frames'][0]['type'] in FRAGMENTABLE and not u.get('inside') and \
+                    not ((ep, u['sid']) in open_units and open_units[(ep, u['sid'])] is u):
+                written[u['sid']] += 1
+        for sid, ss in src.items():
+            gs = got.get(sid, [])
+            bad = False
+            for i, g in enumerate(gs):
+                if i >= len(ss):
+                    break
+                a, b = enq_summary(ss[i]['f']), enq_summary(g['f'])
+                if a != b:
+                    diff = [k for k in a if a.get(k) != b.get(k)]
+                    V(prop_cls + 'receiver_reassembly_mismatch', 'stream %d frame %d (%s): the peer reassembled something else (%s differ)'
+                      % (sid, i, a['type'], diff), g['seq'], ep=peer, type=a['type'], fields=','.join(diff))
+                    bad = True
+                    break
+            if not bad and an.fault_free and an.stopped and an.world.incomplete is None and len(gs) < written[sid]:
+                V(prop_cls + 'receiver_frame_missing', 'stream %d: %d frames were written completely, the peer reassembled only %d'
+                  % (sid, written[sid], len(gs)), None, ep=peer, multiplexed=len(src) > 1)
 
 
 # ------------------------------------------------------------------------------------------
